@@ -44,4 +44,16 @@ CHECKS = {
   "note": "Trusted: truth Jacobian and its null space (numpy), driver dump of the design matrix. Agreement between two datums is limited by gama's own linearisation criterion (tolerances 2e-3 mm / 2e-2 cc / 2e-6 m, 2e-3 relative on v'Pv). Near-singular configurations (singular value ratio < 1e-2) are discarded as ambiguous.",
   "technique": "metamorphic property-based testing (Hypothesis) + differential check against numpy minimal-norm solution",
  },
+ "C17": {
+  "text": "Deterministic dense grids (2011 probabilities x dof 1..1000 and 2000, 1e4, 1e6; x in [-40,40]) plus monotonicity/finiteness scans down to 1e-12 and Hypothesis pairs, compared with scipy.stats isf/cdf using exactly the bounds of the property (1e-6, 5e-4, 5e-3 relative); symmetry, monotonicity, NormalDistribution(Normal(a)) = 1-a.",
+  "note": "Trusted: scipy.stats as reference (two-term series for Student next to alpha = 0.5). Three known findings about the approximation formulas are excluded by region-specific tags and printed as KNOWN-FINDING.",
+  "technique": "exhaustive grid enumeration + property-based testing (Hypothesis) against scipy reference",
+  "engine": "hypothesis+gdrv",
+ },
+ "C18": {
+  "text": "Grids over all 48 ellipsoids x latitude (poles exact) x longitude x height for the blh<->xyz round trip with the documented bound, angle-format round trips with field-range checks at every precision, EXHAUSTIVE enumeration of all literal strings up to length 5 (quick) / 6 (thorough) over {0,1,9,+,-,.,e,E,space,x} through IsFloat/IsInteger/toDouble/toInteger/toIndex/deg2gon with must-accept / must-reject sets, bearing/distance antisymmetry on point pairs in all quadrants; Hypothesis parts beyond the grids.",
+  "note": "Trusted: closed-form ellipsoid formulas in Python, Python float() as literal reference; grey-zone literals (e.g. '1.') are not asserted.",
+  "technique": "exhaustive bounded enumeration + property-based testing (Hypothesis) with round-trip oracles",
+  "level": "fault_enumeration",
+ },
 }
